@@ -8,6 +8,7 @@ import PgVerif.Model.TableGen
 import PgVerif.Spec.LR1
 import PgVerif.Spec.Prec
 import PgVerif.Spec.LexRules
+import PgVerif.Model.Actions
 import PgVerif.Generated.Source
 /-!
 `pgmodel`: line-protocol driver. One request per line (a command word followed
@@ -166,12 +167,30 @@ def decETok (n : Nat) : ETok :=
   | 2 => .rpar
   | k + 3 => .op k
 
+def decBuiltin (n : Nat) : Builtin :=
+  match n with
+  | 0 => .passNone | 1 => .passNochange | 2 => .passEmpty | 3 => .passSingle | 4 => .passInner
+  | 5 => .collectFirst | 6 => .collectFirstSep | 7 => .collectRightFirst | 8 => .collectRightFirstSep
+  | _ => .zeroAction
+
+def rdActEnv : Rd ActEnv := do
+  let prods ← rdList (do
+    let k ← rd
+    let named ← rdList (do let i ← rd; let b ← rd; pure (i, b != 0))
+    let kind : ActKind := if k == 0 then .default else if k == 1 then .user else if k == 20 then .obj
+      else .builtin (decBuiltin (k - 2))
+    pure ({ kind := kind, named := named } : ProdAct))
+  let terms ← rdList rd
+  let ta := terms.toArray
+  pure { prods := prods, termUser := fun t => match ta[t]? with | some x => x != 0 | none => false }
+
 structure St where
   g : Grammar := default
   gg : GGrammar := default
   T : Option Table := none
   inp : Option Input := none
   F : Forest := []
+  env : ActEnv := { prods := [], termUser := fun _ => false }
 
 def natList (l : List Nat) : String := " ".intercalate (l.map toString)
 
@@ -222,6 +241,14 @@ def handle (st : St) (cmd : String) (args : List Nat) : St × String :=
         | some t => "climb " ++ showETree t ++ (if t.conventional ot then " conv" else " NOTCONV")
         | none => "climb none")
     | none => (st, "bad-climb")
+  | "actenv" =>
+    match rdActEnv.run args with
+    | some (e, _) => ({ st with env := e }, "ok")
+    | none => (st, "bad-actenv")
+  | "eval" =>
+    match rdTree.run args with
+    | some (t, _) => (st, "eval " ++ (t.eval st.env).show)
+    | none => (st, "bad-tree")
   | "firstsets" => (st, "firstsets " ++ natList (firstSets st.gg))
   | "table" =>
     match rdTable.run args with
